@@ -5,8 +5,8 @@ V = os.path.dirname(os.path.dirname(os.path.abspath(__file__)))
 CHECKS = {
  'C01': dict(level='model_checking', ref='DESIGN.md §2 C01', engine='dx',
    technique='exhaustive bounded exploration of deviate choice points (decision thresholds solved from the reference model), every execution replayed on transpiled-Fortran model and port',
-   text='Every explored execution (all (draw-site, threshold-side) edges of every reference background scheme, plus all executions with <=1 (quick) / <=2 (thorough) forced deviates and all discrete paths up to a cap) is run on the mechanically transpiled Fortran reference and on the port through GENBBsub/genbbsub and compared particle by particle and draw for draw.',
-   note='Trusted: tools/f2cxx.py transpilation (REAL as double), independent CERNLIB stand-ins, affine-threshold discovery; continuous draws only at tails/0.5/default-stream values.'),
+   text='Every explored execution (all (draw-site, threshold-side) edges of every reference background scheme, plus all executions with <=1 (quick) / <=2 (thorough) forced deviates and all discrete paths up to a cap; at every rejection test the preceding draw swept over a 24-point grid with both sides of the re-solved threshold probed) is run on the mechanically transpiled Fortran reference and on the port through GENBBsub/genbbsub and compared particle by particle and draw for draw.',
+   note='Trusted: tools/f2cxx.py transpilation (REAL as double), independent CERNLIB stand-ins, affine-threshold discovery; continuous draws at tails, 0.5, the default-stream value and (before rejection tests) a 24-point grid; margin classes of DESIGN section 6 decide which executions can be judged.'),
  'C02': dict(level='model_checking', ref='DESIGN.md §2 C02', engine='dx',
    technique='complete enumeration of the (isotope, level, mode) grid against the reference acceptance, then bounded exhaustive deviate-choice exploration per accepted configuration, model vs port',
    text='All 18360 (isotope, level 0..17, mode 1..20) requests are issued to model and port; for each of the ~1130 accepted ones initialisation (deviates consumed, toallevents, 4300-bin spectrum table) and all explorer executions (layers A+B1 quick, A+B2+C thorough) are compared with the transpiled reference; energy windows on window-capable modes.',
@@ -33,7 +33,7 @@ CHECKS = {
    note='Trusted: reference machine written from the literal property text; merge of states justified by the reference state plus a sticky refused-operation mark; bounds 2 operations / 2 shots per history.'),
  'C07': dict(level='exploration', ref='DESIGN.md §2 C07', engine='c07',
    technique='exhaustive enumeration of prior-activity histories up to a depth (replayed on fresh objects), differential probe shots against the canonical history',
-   text='For all 69 background names and 20+ double-beta configurations, every history up to depth 3 (4 thorough) over 11 kinds of prior API activity (event reuse with exact capacities, reset/re-initialise, other instances alive or destroyed, rebuild) is followed by 9 probe shots with recorded deviate streams that must equal the canonical first-shot-of-a-fresh-generator event bit for bit; working parameters compared after re-initialisation; one 1e4 (1e6 thorough) shot history per configuration.',
+   text='For all 69 background names and 20+ double-beta configurations (every isotope in the thorough tier), every history up to depth 3 (4 thorough) over 11 kinds of prior API activity (event reuse with exact capacities, reset/re-initialise, other instances alive or destroyed, rebuild) is followed by 9 probe shots with recorded deviate streams that must equal the canonical first-shot-of-a-fresh-generator event bit for bit; two predecessor-first histories per configuration in fresh processes (a sibling configuration runs first); collision histories: every ordered pair of beta-sampler calls of different decay schemes that agree in Q and differ elsewhere (from the model call trace), predecessor shot before every port shot of the successor, successor explored against the history-free model; working parameters compared after re-initialisation; one 1e4 (1e6 thorough) shot history per configuration.',
    note='Trusted: bit-for-bit comparison; the long history is a single deterministic history, not exhaustive.'),
  'C11': dict(level='model_checking', ref='DESIGN.md §2 C11', engine='c11',
    technique='explicit-state enumeration of (stream, file partition, window, call pattern) against a list-slice reference model on real files; exhaustive value-alphabet round trip',
@@ -57,7 +57,7 @@ CHECKS = {
    note='Trusted: the name -> scheme-function table written from the README; double-beta schemes are bound by C02.'),
  'C12': dict(level='model_checking', ref='DESIGN.md §2 C12', engine='c12',
    technique='stateless exhaustive exploration of thread interleavings of the real code under a cooperative scheduler (preemption-bounded, state-hash pruned), plus a free-running ThreadSanitizer pass',
-   text='All schedules of 2-3 harness threads over the interposed synchronisation points of the real library (GSL handler save/disable/restore, quadrature entry/exit, mutex lock/unlock) up to preemption bound 2 (quick) / 3-4 (thorough) are executed, each in a forked child: no abort, no deadlock, handler restored, sequential results; whole-generator harnesses compare each thread\'s events with its sequential events. A separate unserialised ThreadSanitizer run of 8 concurrent generators catches unsynchronised accesses.',
+   text='All schedules of 2-3 harness threads over the interposed synchronisation points of the real library (GSL handler save/disable/restore, quadrature entry/exit, mutex lock/unlock, every call of a libc function with hidden process-wide state such as strtok/rand/localtime) up to preemption bound 2 (quick) / 3-4 (thorough) are executed, each in a forked child: no abort, no deadlock, handler restored, sequential results; whole-generator harnesses compare each thread\'s events with its sequential events. A separate unserialised ThreadSanitizer run of 12 concurrent generators (and first-use groups) catches unsynchronised accesses, including unsynchronised callers of non-reentrant libc functions (mirrored on an instrumented proxy).',
    note='Trusted: preemption only at interposed points, sequential consistency; TSan for everything below; glibc/libstdc++ internals are not scheduled.'),
  'C13': dict(level='fault_enumeration', ref='DESIGN.md §2 C13', engine='c13',
    technique='exhaustive enumeration of every write()-level kill point and torn write of the CLI run (LD_PRELOAD shim) plus enumerated command lines compared byte for byte with an in-process API recomputation',
@@ -65,11 +65,11 @@ CHECKS = {
    note='Trusted: process kill only (no reordering of completed writes, no ENOSPC); refusal rules from README/--help.'),
  'C17': dict(level='exploration', ref='DESIGN.md §2 C17', engine='c17',
    technique='exhaustive enumeration of a configuration grid on the unmodified Geant4 extension sources compiled against a minimal Geant4 stand-in; differential against the core API',
-   text='The unmodified primary_generator_action.cc and unique_point_vertex_generator.cc are compiled against stand-in Geant4 headers and driven over ~4000 (quick) configurations (categories, valid/invalid/unpublished nuclides, seeds, modes, levels, windows, MDL, three vertex-generator situations); refusal is compared with the core tools (driver rules + decay0_generator::initialize run in-process) and every handed-over primary with the particle of an identically seeded core generator (species, momentum in MeV, time in seconds, vertex).',
+   text='The unmodified primary_generator_action.cc and unique_point_vertex_generator.cc are compiled against stand-in Geant4 headers and driven over ~4000 (quick) configurations (categories, valid/invalid/unpublished nuclides, seeds, modes, levels, windows, MDL, three vertex-generator situations; on a sub-grid also a user-changed gun multiplicity and re-configuration of one action object after five other configurations); refusal is compared with the core tools (driver rules + decay0_generator::initialize run in-process) and every handed-over primary with the particle of an identically seeded core generator (species, momentum in MeV, time in seconds, vertex).',
    note='Trusted: the stand-in reproduces G4ParticleGun::SetParticleMomentum semantics and CLHEP unit values; real Geant4 is not available offline.'),
  'C15': dict(level='fault_enumeration', ref='DESIGN.md §2 C15', engine='c15',
    technique='bounded exhaustive mutation of small seed files (all truncations, all token x adversarial-alphabet replacements, line deletions/duplications, argv prefixes), each mutant loaded in a forked child of the sanitizer build',
-   text='Every byte-prefix truncation, every token replaced by each of 18 adversarial strings, every token duplicated and every line deleted/duplicated/extended of a two-event file, a gA p.d.f. table, its encoder-written c.d.f. table, the three catalogue lists and two argument vectors (~5000 mutants quick; pairs of replacements thorough) is fed to the real loader in a forked child of the ASan+UBSan+_GLIBCXX_ASSERTIONS build with a time limit and a single-allocation cap; allowed outcomes: exception, or a load satisfying the loader\'s validity predicate.',
+   text='Every byte-prefix truncation, every token replaced by each of 18 adversarial strings, every integer token by every integer in -2..30, every token duplicated and every line deleted/duplicated/extended of a two-event file, a gA p.d.f. table, its encoder-written c.d.f. table, the three catalogue lists and two argument vectors (~5000 mutants quick; pairs of replacements thorough) is fed to the real loader in a forked child of the ASan+UBSan+_GLIBCXX_ASSERTIONS build with a time limit and a single-allocation cap; allowed outcomes: exception, or a load satisfying the loader\'s validity predicate (incl. every stored identifier inside its enumeration); a gA object whose load was refused must then load the unmutated dataset and sample exactly like a new object.',
    note='Trusted: GCC sanitizers, libstdc++ assertions; validity predicates stated in the evidence.'),
 }
 NOT_YET = {
